@@ -128,6 +128,7 @@ class DuplicatingGraph:
 
     def __init__(self, base: "Tensor"):
         self.mappings: Dict[int, Node] = {}
+        self._original_bases: Dict[int, Optional["Tensor"]] = {}
 
         self._record_mapping(
             original=base, placeholder=make_placeholder_tensor(base, base=base.base)
@@ -161,6 +162,8 @@ class DuplicatingGraph:
             The tensor of which ``original`` is a direct view
         """
         node = Node(tensor=original, placeholder=placeholder, parent=parent)
+        # remembered so that a failed in-place operation can be rolled back exactly
+        self._original_bases[id(original)] = original._base
         self.mappings[id(node.tensor)] = node
         self.mappings[id(node.placeholder)] = node
 
@@ -205,8 +208,7 @@ class DuplicatingGraph:
         # before information gets deleted / mutated
         for node in tuple(self):
             reroute_ops_through(target=node.tensor, source=node.placeholder)
-            if node.placeholder._base is not None:
-                node.tensor._base = self.base.tensor
+            node.tensor._base = self._original_bases[id(node.tensor)]
 
 
 class UnView(Operation):
